@@ -190,12 +190,12 @@ int main (int argc, char *argv[]) {
     }
     printf("Would download in total %lli of %lli bytes (%lli%%), %lli in the header and the rest in %lli chunks\n",
            (long long) dl_size, (long long) total_size,
-           (long long) (dl_size * 100 / total_size),
+           (long long) ((long double)dl_size * 100 / total_size),
            (long long) header_size,
            (long long) (zck_get_chunk_count(zck_tgt) - matched_chunks));
     printf("Matched %lli of %llu (%lli%%) chunks\n", (long long) matched_chunks,
            (long long unsigned) zck_get_chunk_count(zck_tgt),
-           (long long) (matched_chunks * 100 / zck_get_chunk_count(zck_tgt)));
+           (long long) ((long double)matched_chunks * 100 / zck_get_chunk_count(zck_tgt)));
 
     zck_free(&zck_tgt);
     zck_free(&zck_src);
